@@ -548,7 +548,11 @@ def flush_reload(env, w, sess, trail):
             if o == list(PERSIST):
                 break
             since.append(o)
-        if any(o[0] == "coll" and o[3] == "swap" for o in since):
+        if w.dup_seen:
+            # a member that is (or was) present twice: removing one occurrence fires a
+            # remove event that clears its has-parent flag although it is still a member
+            mech = "o2m-list-duplicate-members-lost-on-flush"
+        elif any(o[0] == "coll" and o[3] == "swap" for o in since):
             # item-by-item permutation: a member is appended at its new index before it
             # is removed from the old one, which leaves its has-parent flag cleared
             mech = "%s-swap-member-lost-on-flush" % w.kind.replace("_", "-")
